@@ -484,7 +484,13 @@ def build_jobs(chk, wd):
         p = os.path.join(wd, "pad%d.pdf" % pad)
         open(p, "wb").write(pdfgen.write_classic(d)[0])
         inputs.append({"name": "pad%d" % pad, "path": p, "kind": "boundary", "npages": 2, "features": ["pad=%d" % pad], "id": "none"})
-    cf = [f for f in filecheck.corpus_files() if os.path.getsize(f) <= 60000]
+    def fsize(f):
+        try:
+            return os.path.getsize(f)
+        except OSError:      # a file of a concurrently running qtest that has vanished
+            return 1 << 60
+    # transient outputs of a test-suite run in /repo (a.pdf, b.pdf, ...) are not corpus files
+    cf = [f for f in filecheck.corpus_files() if fsize(f) <= 60000 and len(os.path.basename(f)) > 5]
     sel = rng.sample(cf, 30 if quick else min(len(cf), 450))
     for must in ("invalid-id-xref.pdf", "outlines-with-actions.pdf", "page-labels-and-outlines.pdf", "thumbnails.pdf" if False else "form-fields-and-annotations.pdf"):
         pth = os.path.join(filecheck.CORPUS_DIR, must)
